@@ -117,7 +117,7 @@ func harnesses(r *fw.Run) []fw.HarnessSpec {
 			return
 		}
 		placement := c.ChooseFree(4) // 0 top level, 1 behind ^, 2 optional ref slot, 3 dictionary value
-		cmode := c.ChooseFree(3) // 0: plain tlb.Unmarshal, 1: a fresh caching decoder, 2: a caching decoder whose hasher has already hashed the enclosing cell (as Transaction decoding does before it reaches its messages)
+		cmode := c.ChooseFree(3)     // 0: plain tlb.Unmarshal, 1: a fresh caching decoder, 2: a caching decoder whose hasher has already hashed the enclosing cell (as Transaction decoding does before it reaches its messages)
 		caching := cmode > 0
 		want := w.ReprHash()
 		c.Case(append(want[:], byte(placement), byte(cmode)), true)
